@@ -62,6 +62,7 @@ fn nontrivial(prop: &str, case: &Case, out: &RunOut, probes_delta: &BTreeMap<Str
         "C09" => c("fault.shape") >= 1 && c("shape.good") >= 1,
         "C13" => c("op.hostcheck") >= 1 && c("oracle.dft-ref") >= 1,
         "C15" => c("op.call") + c("op.shared-immut") + c("fault.shape") >= 1,
+        "C12" => c("oracle.dft-ref") >= 1 && c("fault.shape") + c("op.grid-call") + c("fault.neighbour.poison") + c("op.split-chunk") >= 1,
         "C03" => c("op.call") + c("fault.shape") + c("op.split-chunk") >= 1,
         _ => case.op_count() > 0,
     }
@@ -429,7 +430,7 @@ pub fn supervise(a: &HashMap<String, String>) -> i32 {
     for (label, vl) in &viols {
         let v = &vl.v;
         let is_crash = v.class.starts_with("crash.");
-        let own = v.class.starts_with(&own_prefix) || v.class.starts_with("liveness");
+        let own = props::owns(&own_prefix, &v.class) || v.class.starts_with("liveness");
         if v.class.starts_with("harness") {
             harness_errors.push(format!("run {}: {} {}", vl.idx, v.class, v.detail));
             continue;
